@@ -263,6 +263,35 @@ def run_mut(case):
                 if isinstance(hv, str) or abs(hv - float(wv)) > 1e-6 * max(1.0, abs(float(wv))):
                     fails.append(_fail("min: equivalent to the input", dict(inp0, x=list(x)), hv, wv))
                     break
+    # weight configurations for min: all weights EQUAL (several initial / final states with the same weight),
+    # and weights of alternating sign (vectors whose entries cancel although the vector is not null)
+    n = len(ops)
+    for cname, W2 in (("uniform 1/2", [Fraction(1, 2)] * n), ("alternating signs", [w * (-1) ** i for i, w in enumerate(W)]), ("alternating signs, uniform", [Fraction(1, 2) * (-1) ** i for i in range(n)])):
+        try:
+            m2 = to_matrices(fsm.data(ops, W2))
+        except Diverges:
+            skipped += 1
+            continue
+        mn = guarded(lambda: lib(ops, W2).min)
+        evals += 1
+        inp2 = dict(inp0, weights=cname)
+        if isinstance(mn, str):
+            fails.append(_fail("min: terminates and returns an automaton", inp2, mn, "automaton"))
+            continue
+        want_dim = hankel_rank(m2, alphabet, len(m2[0]))
+        if mn.dim != want_dim:
+            fails.append(_fail("min: number of states == rank of the Hankel matrix", inp2, mn.dim, want_dim))
+        d = machine_data(mn)
+        for x in strings_upto(alphabet, min(max(len(m2[0]) + mn.dim - 1, 1), 4)):
+            try:
+                hv = fsa_weight(d, x, Float, tol=1e-15, maxit=500)
+            except Diverges:
+                hv = "diverges"
+            wv = mat_weight(m2, x)
+            evals += 1
+            if isinstance(hv, str) or abs(hv - float(wv)) > 1e-6 * max(1.0, abs(float(wv))):
+                fails.append(_fail("min: equivalent to the input", dict(inp2, x=list(x)), hv, wv))
+                break
     acc = any(o[0] == "I" for o in ops) and any(o[0] == "F" for o in ops)
     return {"evals": evals, "nontrivial": int(acc), "fails": fails, "counters": {"executions": evals, "skipped_divergent": skipped}}
 
